@@ -41,6 +41,8 @@ def run(ctx, rep):
         check_depth_ast(crate, rep, cfg)
         check_lexprog(crate, rep, cfg)
         check_parseprog(crate, rep, cfg)
+        import rpanic
+        rpanic.check(crate, rep, "R-PANIC.parse", ("parsing/lexer.rs", "parsing/parser.rs", "parsing/compiler.rs", "parsing/instructions.rs", "template.rs", "tera.rs", "delimiters.rs"), cfg, 40)
     pos = ctx.posctl()
     # positive controls: unguarded self-recursion and an uncharged loop-carried wrap must be flagged
     from engine import Report
